@@ -27,7 +27,12 @@ EXTENDS Lang, Json
 CONSTANTS NTicks,        \* samples per history
           MaxEdits,      \* edits (successful or failing) per history
           MaxVoices, InitVoices,
-          EditAt         \* sample indices before which an edit may happen
+          EditAt,        \* sample indices before which an edit may happen
+          Live,          \* FALSE: an edit is swapped in at once (the runtimes' hot-swap entry points);
+                         \* TRUE: the live-coding loop - an edit (a save of the file) is compiled and *queued*
+                         \* for the audio callback, which takes one queued program per invocation and then
+                         \* renders its frames (FileRunner / swap channel / NativeAudioData::process)
+          Frames         \* Live: sizes of an audio callback's buffer (in frames)
 
 Helpers == [
   counter |-> [ps |-> <<"inc">>, self |-> TRUE,  b |-> Bin("+", SelfE(0), Var("inc"))],
@@ -88,8 +93,11 @@ Migrate(cells, old, new) ==
   IN [k \in {NewKey(m) : m \in moved} |-> cells[(CHOOSE m \in moved : NewKey(m) = k)[1]]]
 
 ---------------------------------------------------------------------------
-VARIABLES vs, now, st, hist, expectA, nextId, nedits
-vars == <<vs, now, st, hist, expectA, nextId, nedits>>
+VARIABLES vs, now, st, hist, expectA, nextId, nedits,
+          file,     \* the voices of the last version that was saved and compiled (edits are made to this text)
+          queue,    \* Live: compiled versions waiting for the audio callback, oldest first
+          mask      \* Live: mask[t] = sample t was rendered with nothing waiting (see Callback)
+vars == <<vs, now, st, hist, expectA, nextId, nedits, file, queue, mask>>
 
 DistinctShapes(s) == \A i, j \in 1..Len(s) : i # j => s[i].shape # s[j].shape
 
@@ -99,57 +107,86 @@ Init == /\ \E shp \in [1..InitVoices -> Shapes] :
         /\ now = 0 /\ nextId = InitVoices + 1 /\ nedits = 0
         /\ st = Boot(Prog(<<>>))
         /\ hist = <<>> /\ expectA = <<>>
+        /\ file = vs /\ queue = <<>> /\ mask = <<>>
 
-Start == hist = <<>> /\ hist' = <<[op |-> "start", prog |-> Prog(vs)]>> /\ UNCHANGED <<vs, now, st, expectA, nextId, nedits>>
+Start == hist = <<>> /\ hist' = <<[op |-> "start", prog |-> Prog(vs)]>> /\ UNCHANGED <<vs, now, st, expectA, nextId, nedits, file, queue, mask>>
 
-Tick == /\ hist # <<>> /\ now < NTicks
+Tick == /\ ~Live /\ hist # <<>> /\ now < NTicks
         /\ LET r == RunSample(Prog(vs), st, now, 0)
            IN st' = r.st /\ expectA' = Append(expectA, r.out[1])
         /\ now' = now + 1
         /\ hist' = Append(hist, [op |-> "tick"])
-        /\ UNCHANGED <<vs, nextId, nedits>>
+        /\ UNCHANGED <<vs, nextId, nedits, file, queue, mask>>
 
 Swap(new, label) ==
   /\ hist # <<>> /\ nedits < MaxEdits /\ now < NTicks /\ now \in EditAt
   /\ DistinctShapes(new)
-  /\ vs' = new
-  /\ st' = [st EXCEPT !.S.c = Migrate(st.S.c, vs, new)]
+  /\ file' = new
+  /\ IF Live THEN /\ queue' = Append(queue, new) /\ UNCHANGED <<vs, st>>
+             ELSE /\ vs' = new /\ st' = [st EXCEPT !.S.c = Migrate(st.S.c, vs, new)] /\ UNCHANGED queue
   /\ hist' = Append(hist, [op |-> label, prog |-> Prog(new)])
   /\ nedits' = nedits + 1
-  /\ UNCHANGED <<now, expectA>>
+  /\ UNCHANGED <<now, expectA, mask>>
 
 RemoveAt(s, i) == SubSeq(s, 1, i-1) \o SubSeq(s, i+1, Len(s))
 InsertAt(s, i, x) == SubSeq(s, 1, i-1) \o <<x>> \o SubSeq(s, i, Len(s))
 
-InsertVoice == \E i \in 1..(Len(vs) + 1), shp \in Shapes :
-                 /\ Len(vs) < MaxVoices
-                 /\ Swap(InsertAt(vs, i, [id |-> nextId, shape |-> shp, k |-> 2, chan |-> "B"]), "insert")
+InsertVoice == \E i \in 1..(Len(file) + 1), shp \in Shapes :
+                 /\ Len(file) < MaxVoices
+                 /\ Swap(InsertAt(file, i, [id |-> nextId, shape |-> shp, k |-> 2, chan |-> "B"]), "insert")
                  /\ nextId' = nextId + 1
-DeleteVoice == \E i \in 1..Len(vs) : Len(vs) > 1 /\ Swap(RemoveAt(vs, i), "delete") /\ UNCHANGED nextId
-ReplaceVoice == \E i \in 1..Len(vs), shp \in Shapes :
-                  /\ shp # vs[i].shape
-                  /\ Swap([vs EXCEPT ![i] = [id |-> nextId, shape |-> shp, k |-> 3, chan |-> "B"]], "replace")
+DeleteVoice == \E i \in 1..Len(file) : Len(file) > 1 /\ Swap(RemoveAt(file, i), "delete") /\ UNCHANGED nextId
+ReplaceVoice == \E i \in 1..Len(file), shp \in Shapes :
+                  /\ shp # file[i].shape
+                  /\ Swap([file EXCEPT ![i] = [id |-> nextId, shape |-> shp, k |-> 3, chan |-> "B"]], "replace")
                   /\ nextId' = nextId + 1
-ChangeConst == \E i \in 1..Len(vs) :
-                  /\ Swap([vs EXCEPT ![i] = [@ EXCEPT !.k = @ + 4, !.chan = "B"]], "const")
+ChangeConst == \E i \in 1..Len(file) :
+                  /\ Swap([file EXCEPT ![i] = [@ EXCEPT !.k = @ + 4, !.chan = "B"]], "const")
                   /\ UNCHANGED nextId
 (* nest a voice one call deeper (counter(k) becomes deep(k) with fn deep(x){ counter(x) }) or back:  *)
 (* its state shape changes, so it starts again from zero and counts as touched; its siblings do not *)
-NestDeeper == \E i \in 1..Len(vs) :
-                 /\ DeepOf(vs[i].shape) # "none"
-                 /\ Swap([vs EXCEPT ![i] = [id |-> nextId, shape |-> DeepOf(vs[i].shape), k |-> vs[i].k, chan |-> "B"]], "nest")
+NestDeeper == \E i \in 1..Len(file) :
+                 /\ DeepOf(file[i].shape) # "none"
+                 /\ Swap([file EXCEPT ![i] = [id |-> nextId, shape |-> DeepOf(file[i].shape), k |-> file[i].k, chan |-> "B"]], "nest")
                  /\ nextId' = nextId + 1
-UnNest == \E i \in 1..Len(vs) :
-             /\ vs[i].shape = "deepc"
-             /\ Swap([vs EXCEPT ![i] = [id |-> nextId, shape |-> "counter", k |-> vs[i].k, chan |-> "B"]], "unnest")
+UnNest == \E i \in 1..Len(file) :
+             /\ file[i].shape = "deepc"
+             /\ Swap([file EXCEPT ![i] = [id |-> nextId, shape |-> "counter", k |-> file[i].k, chan |-> "B"]], "unnest")
              /\ nextId' = nextId + 1
 (* an edit that does not compile: nothing changes *)
 BreakCompile == /\ hist # <<>> /\ nedits < MaxEdits /\ now < NTicks /\ now \in EditAt
                 /\ hist' = Append(hist, [op |-> "broken"])
                 /\ nedits' = nedits + 1
-                /\ UNCHANGED <<vs, now, st, expectA, nextId>>
+                /\ UNCHANGED <<vs, now, st, expectA, nextId, file, queue, mask>>
 
-Next == Start \/ Tick \/ InsertVoice \/ DeleteVoice \/ ReplaceVoice \/ ChangeConst \/ NestDeeper \/ UnNest \/ BreakCompile
+(* Live: the file is saved again without a change: the same version is compiled and queued once more *)
+Resave == /\ Live /\ Swap(file, "resave") /\ UNCHANGED nextId
+
+(* Live: one invocation of the audio callback with a buffer of F frames: take at most one waiting      *)
+(* program and swap it in, then render the frames.  The property does not say *when* a saved edit      *)
+(* becomes audible, only what is preserved once it is: a sample rendered while another version is      *)
+(* still waiting is not constrained (mask), every other sample is.                                     *)
+RECURSIVE RunFrames(_,_,_,_)
+RunFrames(prog, s0, t, f) ==
+  IF f = 0 THEN [st |-> s0, outs |-> <<>>]
+  ELSE LET r == RunSample(prog, s0, t, 0)
+           rest == RunFrames(prog, r.st, t + 1, f - 1)
+       IN [st |-> rest.st, outs |-> <<r.out[1]>> \o rest.outs]
+Callback == \E F \in Frames :
+  /\ Live /\ hist # <<>> /\ now + F <= NTicks
+  /\ LET take == queue # <<>>
+         vs1 == IF take THEN Head(queue) ELSE vs
+         st1 == IF take THEN [st EXCEPT !.S.c = Migrate(st.S.c, vs, vs1)] ELSE st
+         q1  == IF take THEN Tail(queue) ELSE queue
+         r   == RunFrames(Prog(vs1), st1, now, F)
+     IN /\ vs' = vs1 /\ queue' = q1 /\ st' = r.st
+        /\ expectA' = expectA \o r.outs
+        /\ mask' = mask \o [i \in 1..F |-> q1 = <<>>]
+  /\ now' = now + F
+  /\ hist' = Append(hist, [op |-> "cb", frames |-> F])
+  /\ UNCHANGED <<nextId, nedits, file>>
+
+Next == Start \/ Tick \/ Callback \/ Resave \/ InsertVoice \/ DeleteVoice \/ ReplaceVoice \/ ChangeConst \/ NestDeeper \/ UnNest \/ BreakCompile
 Spec == Init /\ [][Next]_vars
 
 (* on the model: the cells of a voice never touched by an edit are those of the uninterrupted run *)
@@ -157,5 +194,10 @@ Spec == Init /\ [][Next]_vars
 CellsWellFormed == \A key \in DOMAIN st.S.c : \E j \in 1..Len(vs) : IsPrefix(BindPos(j), key[1])
 
 Emit == (now = NTicks /\ nedits > 0) =>
-          PrintT(<<"REPLAY", ToJson([hist |-> hist, expectA |-> expectA])>>)
+          PrintT(<<"REPLAY", ToJson([hist |-> hist, expectA |-> expectA, mask |-> mask])>>)
+
+(* Live: what is queued is applied in order, one version per callback: the running version and the   *)
+(* waiting ones always form a suffix of the versions saved so far, ending with the file               *)
+QueueEndsWithFile == (queue # <<>>) => queue[Len(queue)] = file
+NothingWaitingMeansFileRuns == (Live /\ queue = <<>> /\ hist # <<>>) => vs = file
 =============================================================================
